@@ -3040,6 +3040,10 @@ psf_open_file (SF_PRIVATE *psf, SF_INFO *sfinfo)
 
 	memcpy (&psf->sf, sfinfo, sizeof (SF_INFO)) ;
 
+	/* A file opened for write starts empty whatever the caller left in sfinfo->frames. */
+	if (psf->file.mode == SFM_WRITE)
+		psf->sf.frames = 0 ;
+
 	psf->Magick 		= SNDFILE_MAGICK ;
 	psf->norm_float 	= SF_TRUE ;
 	psf->norm_double	= SF_TRUE ;
